@@ -1,6 +1,7 @@
 //! unit: u13c
 //! properties: C13 C12
 //! note: TLV stream decoding (util/ser_macros.rs _decode_tlv_stream_range!, the macro behind every TLV-carrying message and persisted struct): record types must be strictly increasing, an unknown even type is refused and an unknown odd type is skipped
+//! trusted: writing side: _encode_tlv!: the `required` and `option` arms are sliced as functions over a byte-recording writer (BigSize::write appends the uninterpreted bigsize_bytes, a field's write appends field_bytes and its serialized_length is their length: the Writeable contract, assumed per type); R16: `Some(ref field)` is written `Some(field)` on a reference scrutinee
 //! trusted: R15 (deep slices of a macro_rules body): the guard of the arm that refuses a type not above the last one seen and the condition under which an unknown type is refused, verbatim as bool functions (the macro's own `$` metavariables do not occur in the sliced statements); reading the type and length (BigSize: Kani group ser-canonical), the per-field decoders and the custom-TLV hook are dropped and not claimed; _check_decoded_tlv_order! / _check_missing_tlv!: the `required` arm's condition (slices, R18: metavariables `$x` renamed `m_x` and bound as parameters)
 //! trusted: assume_specification for core::cmp::max / core::cmp::min (std definitions): present in every unit so that a change that introduces them is verified instead of being rejected by the tool
 use vstd::prelude::*;
@@ -61,6 +62,43 @@ pub struct BigSize(pub u64);
 //@ret r
 //@ensures P C13,C12 a-stream-that-ends-before-a-required-tlv-type-is-refused
     r == (m_last_seen_type is None || m_last_seen_type->Some_0 < m_type),
+//@end
+// ---- writing side: a record is type, then the length of the value's serialization, then the value --------------------
+pub struct ByteWriter { pub data: Ghost<Seq<u8>> }
+pub struct IoError {}
+pub uninterp spec fn bigsize_bytes(v: u64) -> Seq<u8>;
+pub uninterp spec fn field_bytes(f: Field) -> Seq<u8>;
+impl BigSize { #[verifier::external_body] pub fn write(&self, w: &mut ByteWriter) -> (r: Result<(), IoError>)
+    ensures r is Ok ==> final(w).data@ == old(w).data@ + bigsize_bytes(self.0) { unimplemented!() } }
+pub struct Field { pub id: u64 }
+impl Field {
+    #[verifier::external_body] pub fn serialized_length(&self) -> (r: usize) ensures r == field_bytes(*self).len() { unimplemented!() }
+    #[verifier::external_body] pub fn write(&self, w: &mut ByteWriter) -> (r: Result<(), IoError>) ensures r is Ok ==> final(w).data@ == old(w).data@ + field_bytes(*self) { unimplemented!() }
+}
+pub open spec fn tlv_record(t: u64, f: Field) -> Seq<u8> { (bigsize_bytes(t) + bigsize_bytes(field_bytes(f).len() as u64)) + field_bytes(f) }
+//@extract lightning/src/util/ser_macros.rs :: macro_rules _encode_tlv
+//@metavars
+//@slice R15
+    BigSize(m_type).write(m_stream)?; $l:seq.write(m_stream)?; m_field.write(m_stream)?;
+//@with
+    fn write_required_tlv(m_stream: &mut ByteWriter, m_type: u64, m_field: &Field) -> Result<(), IoError> { BigSize(m_type).write(m_stream)?; $l.write(m_stream)?; m_field.write(m_stream)?; Ok(()) }
+//@ret r
+//@ensures P C13,C12 a-required-tlv-record-is-written-as-its-type-the-length-of-the-values-own-serialization-and-the-value
+    r is Ok ==> final(m_stream).data@ =~= old(m_stream).data@ + tlv_record(m_type, *m_field),
+//@mutant length_prefix_counts_the_type_too
+    BigSize(m_field.serialized_length() as u64).write(m_stream)?; m_field.write(m_stream)?; }; (m_stream
+//@with
+    BigSize(m_field.serialized_length() as u64 + 1).write(m_stream)?; m_field.write(m_stream)?; }; (m_stream
+//@end
+//@extract lightning/src/util/ser_macros.rs :: macro_rules _encode_tlv
+//@metavars
+//@slice R15
+    if let Some(ref field) = m_optional_field { $body:straight }
+//@with
+    fn write_optional_tlv(m_stream: &mut ByteWriter, m_optional_type: u64, m_optional_field: &Option<Field>) -> Result<(), IoError> { if let Some(field) = m_optional_field { $body } Ok(()) }
+//@ret r
+//@ensures P C13,C12 an-optional-tlv-record-is-written-exactly-when-the-field-is-present-in-the-same-type-length-value-form
+    r is Ok ==> final(m_stream).data@ =~= old(m_stream).data@ + (match *m_optional_field { Some(f) => tlv_record(m_optional_type, f), None => Seq::<u8>::empty() }),
 //@end
 }
 fn main() {}
